@@ -8,7 +8,7 @@ on worker (u + u//16) % 16 with PRNG stream (seed, u).  --cases is the per-unit 
 time.
 """
 import os
-from vrun import Job
+from vrun import Job, with_alt_flavours
 
 HERE = os.path.dirname(os.path.dirname(os.path.abspath(__file__)))
 FIX = os.path.join(HERE, 'fixtures', 'rsa')
@@ -53,11 +53,11 @@ CASES = {'quick': 40, 'thorough': 200}
 def jobs(tier, seed):
     t = 0 if tier == 'quick' else 1
     cases = int(os.environ.get('C10_CASES', CASES['quick' if t == 0 else 'thorough']))
-    return [Job('w%d' % i, 'h_rsa',
+    return with_alt_flavours([Job('w%d' % i, 'h_rsa',
                 ['--seed', seed, '--worker', i, '--nworkers', NWORKERS, '--cases', cases,
                  '--tier', t, '--fixtures', FIX],
                 flavour='asan', libs=['-lcrypto'], timeout=900 if t == 0 else 5400)
-            for i in range(NWORKERS)]
+            for i in range(NWORKERS)], tier, seed)
 
 
 def finish(res, tier, seed):
